@@ -1,6 +1,7 @@
 package checks
 
 import (
+	"context"
 	"encoding/base64"
 	"fmt"
 	"net/url"
@@ -318,6 +319,13 @@ func c05Unit(c *RunCtx, unit int) {
 		}
 		if r.Intn(3) == 0 {
 			step(act("recover_start", 0, i, ""))
+		}
+		if r.Intn(3) == 0 {
+			// a re-issue whose Save fails (the client hung up: context.Canceled; or the database is down):
+			// whatever gets mailed or not, afterwards exactly the tokens the ledger has as live work
+			s.W.FaultOps = map[string]error{"Save": []error{context.Canceled, context.DeadlineExceeded, errGeneric}[r.Intn(3)]}
+			step(act("recover_start", 0, i, ""))
+			c.Stats.Count("re-issue-with-failing-save")
 		}
 	}
 	// recombination: every value that can be put together from the halves of two mailed tokens (of any
